@@ -19,6 +19,10 @@ pub fn common_prefix_char_size(left: &str, right: &str) -> u32 {
     let mut right_chars = right.chars();
     let mut was_escape = false;
     let mut group_level = 0;
+    // Depth of character classes (they can be nested), and position in the current one:
+    // 2 when just after its `[`, 1 when just after its `[^`, 0 otherwise
+    let mut class_level = 0;
+    let mut class_start = 0;
     let mut i = 0;
 
     loop {
@@ -29,7 +33,24 @@ pub fn common_prefix_char_size(left: &str, right: &str) -> u32 {
             return prefix_length;
         }
 
-        if left_char == '(' && !was_escape {
+        if class_level > 0 {
+            // Inside a character class parentheses are literals, as is a `]` which comes first
+            if !was_escape {
+                if left_char == '[' {
+                    class_level += 1;
+                    class_start = 2;
+                } else if left_char == '^' && class_start == 2 {
+                    class_start = 1;
+                } else if left_char == ']' && class_start == 0 {
+                    class_level -= 1;
+                } else {
+                    class_start = 0;
+                }
+            }
+        } else if left_char == '[' && !was_escape {
+            class_level = 1;
+            class_start = 2;
+        } else if left_char == '(' && !was_escape {
             group_level += 1;
         } else if left_char == ')' && !was_escape {
             group_level -= 1;
@@ -43,7 +64,7 @@ pub fn common_prefix_char_size(left: &str, right: &str) -> u32 {
 
         i += 1;
 
-        if group_level == 0 && !was_escape {
+        if group_level == 0 && class_level == 0 && !was_escape {
             prefix_length = i;
         }
     }
